@@ -389,7 +389,7 @@ func genLineFloat(t *rapid.T) Case {
 // from the origin: heavy cancellation), mixed exponents, and the two ends of the
 // float64 range where products of differences underflow or overflow.
 func genRingFloat(t *rapid.T) Case {
-	mclass := rapid.SampledFrom([]string{"moderate", "moderate", "offset", "mixed", "tiny", "huge", "fullrange"}).Draw(t, "mclass")
+	mclass := rapid.SampledFrom([]string{"moderate", "moderate", "offset", "mixed", "tiny", "huge", "fullrange", "int32", "int64"}).Draw(t, "mclass")
 	base := 0
 	switch mclass {
 	case "tiny":
@@ -417,6 +417,20 @@ func genRingFloat(t *rapid.T) Case {
 		}
 		var e int
 		switch mclass {
+		case "int32", "int64":
+			// whole numbers over the full range of a machine integer: differences need one
+			// more bit than the type, products of differences twice as many
+			lim := int64(1) << 31
+			if mclass == "int64" {
+				lim = 1 << 53 // the whole numbers float64 represents exactly
+			}
+			switch rapid.IntRange(0, 5).Draw(t, l+"ext") {
+			case 0:
+				return float64(-lim)
+			case 1:
+				return float64(lim - 1)
+			}
+			return float64(rapid.Int64Range(-lim, lim-1).Draw(t, l+"i"))
 		case "moderate", "offset":
 			e = rapid.IntRange(-6, 6).Draw(t, l+"e")
 		case "mixed":
